@@ -197,6 +197,10 @@ def c07(tier):
     ts.ts3(P, C, only=("read_fits_core", "read_fits", "read_fits_mem"))
     vg.vg2(P, C)
     vg.vg2c(P, C)
+    # ... and the axis lengths of the image against each other: their product sizes the coefficient array
+    vg.vg2e(P, C)
+    # 'on every table that a read returns, evaluation is memory-safe': the stack arrays sized by the order need the order bounded
+    kb.kb9(P, C)
     # a crafted file cannot make the reader transfer more elements than the array it allocated holds
     fs.fs7(P, C)
     cw.cw1(P, C, only=("readsplinefitstable", "readsplinefitstable_mem"))
